@@ -45,6 +45,16 @@ def V(o):
         return "(VZ %s)" % z(o)
     if isinstance(o, (list, tuple)):
         return "(VL %s)" % lst(V(x) for x in o)
+    if isinstance(o, float):
+        # an observation that is not an integer (a value no model observation contains) is kept as
+        # a marked pair so that it is compared - and differs - like any other behaviour
+        if o != o or o in (float("inf"), float("-inf")):
+            return "(VL [(VZ (-7777)%Z); (VZ 0)])"
+        if o == int(o):
+            return "(VZ %s)" % z(int(o))
+        return "(VL [(VZ (-7777)%%Z); (VZ %s)])" % z(int(round(o * 1000000)))
+    if isinstance(o, str):
+        return "(VL [(VZ (-7778)%%Z); (VZ %s)])" % z(len(o))
     raise TypeError("not an observation value: %r" % (o,))
 
 
